@@ -476,35 +476,46 @@ def _native_polymod(values):
 
 
 def fold_polymod(values):
-    """bech32_polymod(values) with the state after values[:-6] as an uninterpreted function of those symbols; the last six
-    steps are the real (if-converted) code, entered through the unmasked first value: polymod([S ^ 32] + tail)"""
+    """bech32_polymod(values), compositionally: Z = polymod(values[:-6] + [0]*6) is an uninterpreted 30-bit function of the
+    symbols values[:-6] (it *is* a function of them), and the last six symbols enter linearly: result = Z ^ pack(values[-6:]).
+    The linearity is the lemma of O2-polymod-fold, proved there on the real code (left fold through the first value + linear tail
+    from an arbitrary 30-bit state).  Concrete prefixes use the same function symbol (so that a symbolic text that equals a
+    concrete one gets the same checksum); lists of at most six values go to the real code."""
     real = _STATE["real_polymod"]
     values = list(values)
     if len(values) <= 6:
         return real(values)
     pre, tail = values[:-6], values[-6:]
-    if all(isinstance(v, int) for v in pre):
-        S = real(pre)
-    else:
-        nodes = [lift(v) for v in pre]
-        name = f"pmstate_{len(pre)}"
-        if name not in core.UF_IMPL:
-            core.UF_IMPL[name] = lambda *vals: _native_polymod(vals)
-        S = wrap(core.n_uf(name, 30, nodes, widths=tuple(max(5, x.U) for x in nodes)))
-    return real([S ^ 32] + tail)
+    if not all((isinstance(v, int) and 0 <= v <= 31) or (isinstance(v, SI) and v.lo >= 0 and v.hi <= 31) for v in values):
+        return real(values)
+    arg = 0
+    for v in pre:
+        arg = (arg << 5) | v
+    name = f"pmzero_{len(pre)}"
+    if name not in core.UF_IMPL:
+        k = len(pre)
+        core.UF_IMPL[name] = lambda val, k=k: _native_polymod([(val >> (5 * (k - 1 - i))) & 31 for i in range(k)] + [0] * 6)
+    z = wrap(core.n_uf(name, 30, [lift(arg)], widths=(5 * len(pre),)))
+    pack = 0
+    for x in tail:
+        pack = (pack << 5) | x
+    return z ^ pack
 
 
 def sx_ceil(x):
-    """math.ceil; for an exact rational with concrete numerator and symbolic positive denominator: one path per feasible quotient"""
+    """math.ceil; for an exact rational with concrete numerator and symbolic positive denominator: one path per feasible
+    quotient q, characterised by (q-1)*den < num <= q*den.  The candidate list is only a hint: the solver decides each branch
+    and the fall-through (a quotient outside the list) is reported as unsupported if it is feasible."""
     if isinstance(x, Ratio):
         num, den = x.num, x.den
         if isinstance(den, SI) and isinstance(num, int) and num >= 0 and den.lo >= 1:
-            q = 0
-            while q < num:
-                q += 1
-                if q * den >= num:   # and (q-1)*den < num from the previous iteration
+            if num == 0:
+                return 0
+            cands = sorted({-(-num // v) for v in range(den.lo, min(den.hi, num) + 1)} | {1})
+            for q in cands:
+                if s_and((q - 1) * den < num, q * den >= num):
                     return q
-            return q
+            raise core.Unsupported("sx_ceil: quotient outside the candidate list")
         return x.__ceil__()
     if isinstance(x, SI):
         return x
@@ -1097,28 +1108,490 @@ def ob_bc32_substitution_TODO(*a, **k):
     raise NotImplementedError("O2b-bc32-substitution: waiting for the XOR-ANF normal form in symx")
 
 
+
+# =============================================================================================== O3 BCUR
+
+def _H(data):
+    return shims._H("sha256", data).digest()
+
+
+def _inj(*items):
+    """SHA-256 is injective on the listed byte strings (pairwise): equal digests only for equal strings"""
+    conds = []
+    for i in range(len(items)):
+        for j in range(i + 1, len(items)):
+            a, b = items[i], items[j]
+            same = (a == b) if len(a) == len(b) else False
+            conds.append(s_or(same, _H(a) != _H(b)))
+    return s_and(*conds) if conds else True
+
+
+def _bytes_eq(a, b):
+    return a is not None and not isinstance(a, str) and (len(a) == len(b)) and (a == b)
+
+
+def _text_len(n):
+    """length of bc32encode(cbor_encode(d)) for an n-byte d (RFC head sizes; n < 65536 here)"""
+    h = 1 if n <= 23 else (2 if n <= 255 else 3)
+    return -(-8 * (n + h) // 5) + 6
+
+
+def _chunk_size_for(L, y):
+    for s in range(1, L + 1):
+        if -(-L // s) == y:
+            return s
+    return None
+
+
+def _check_parts(parts, encoded, enc_hash, s, animate, wit, L):
+    """the list of part texts produced by BCURMulti.encode against the chunking specification; returns the parsed fields"""
+    y = len(parts)
+    if animate:
+        check(s_and((y - 1) * s < L, L <= y * s), "number of parts is not ceil(len(text) / max_size_per_chunk)", witness=wit)
+    else:
+        check(y == 1, "animate=False must give a single part", witness=wit)
+    fields = []
+    for i, p in enumerate(parts):
+        try:
+            payload, checksum, x, yy = seam_helper(p)
+        except core.Unsupported:
+            raise
+        except Exception as ex:
+            check(False, f"a part produced by encode() is refused by _parse_bcur_helper ({type(ex).__name__})", witness=wit)
+            return None
+        fields.append((payload, checksum, x, yy))
+    check(all(f[2] == i + 1 and f[3] == y for i, f in enumerate(fields)), "part header is not (position)of(number of parts)", witness=wit)
+    check(s_and(*[f[1] is not None and (f[1] == enc_hash) for f in fields]), "part does not carry the digest text of the whole payload", witness=wit)
+    check(all(len(f[0]) >= 1 for f in fields), "empty part", witness=wit)
+    if animate:
+        check(s_and(*[k <= s for k in sorted({len(f[0]) for f in fields})]), "part longer than max_size_per_chunk", witness=wit)
+    joined = sx_sjoin("", [f[0] for f in fields])
+    check((len(joined) == L) and (joined == encoded), "the parts do not cover the encoded text exactly", witness=wit)
+    return fields
+
+
+def _chunk_path(L, animate):
+    _, bc = mods()
+    obj = object.__new__(bc.BCURMulti)
+    obj.encoded = SStr.sym("t", L)
+    obj.enc_hash = SStr.sym("h", 58)
+    obj.text_b64 = obj.checksum = None
+    s = SI.var("s", 1, 2000)
+    wit = lambda env: {"L": L, "s": env["s"], "animate": animate}  # noqa
+    parts = obj.encode(max_size_per_chunk=s, animate=animate)
+    _check_parts(parts, obj.encoded, obj.enc_hash, s, animate, wit, L)
+    return len(parts)
+
+
+def ob_chunking(Ls):
+    runs = []
+    for L in Ls:
+        runs.append(sym_run(lambda: _chunk_path(L, True), expect_classes=[1, L, -(-L // 2)]))
+        if L % 16 == 8:
+            runs.append(sym_run(lambda: _chunk_path(L, False), expect_classes=[1]))
+    m = merge_runs(runs)
+    m["sample"] = {"encoded text": "L symbolic bech32 characters", "L": list(Ls)[:20], "max_size_per_chunk": "symbolic in [1,2000]"}
+    return m
+
+
+def _pattern_text(L, k=7):
+    return "".join(ALPHA[(i * k + 3) % 32] for i in range(L))
+
+
+def replay_chunking(w):
+    from buidl import bcur
+    L, s, animate = w["L"], w["s"], w["animate"]
+    obj = object.__new__(bcur.BCURMulti)
+    obj.encoded = _pattern_text(L)
+    obj.enc_hash = _pattern_text(58, 11)
+    try:
+        parts = obj.encode(max_size_per_chunk=s, animate=animate)
+        fields = [bcur._parse_bcur_helper(p) for p in parts]
+    except Exception as ex:
+        return {"violated": True, "observed": f"L={L} size={s}: {ex!r}"}
+    y = len(parts)
+    want = -(-L // s) if animate else 1
+    lens = [len(f[0]) for f in fields]
+    ok = y == want and all(f[2] == i + 1 and f[3] == y and f[1] == obj.enc_hash for i, f in enumerate(fields)) \
+        and "".join(f[0] for f in fields) == obj.encoded and all(1 <= l and (l <= s or not animate) for l in lens)
+    return {"violated": not ok, "observed": f"text length {L}, max_size_per_chunk {s}, animate {animate}: {y} parts (expected {want}) of lengths {lens[:12]}"}
+
+
+# ---- sender / receiver scenarios
+
+def _send_multi(bc, d, s, animate=True):
+    obj = bc.BCURMulti(text_b64=B64Text(d))
+    parts = obj.encode(max_size_per_chunk=s, animate=animate)
+    return obj, parts
+
+
+def _recv(fn, *a, **k):
+    """('ok', object) or ('rejected', exception name)"""
+    try:
+        r = fn(*a, **k)
+    except core.Unsupported:
+        raise
+    except Exception as ex:
+        return "rejected", type(ex).__name__
+    if r is None:
+        return "rejected", "None"
+    return "ok", r
+
+
+def _single_path(n, use_checksum):
+    be, bc = mods()
+    use_polymod("fold")
+    d = SBytes.sym("d", n) if n else b""
+    wit = lambda env: {"scenario": "single", "d": bytes_env(env, "d", n).hex(), "use_checksum": use_checksum}  # noqa
+    obj = bc.BCURSingle(text_b64=B64Text(d))
+    cb = spec_cbor(d)
+    check((len(obj.encoded) == _text_len(n)) and (obj.encoded == be.bc32encode(cb)), "BCURSingle.encoded is not bc32(cbor(payload))", witness=wit)
+    check((len(obj.enc_hash) == 58) and (obj.enc_hash == be.bc32encode(_H(cb))), "BCURSingle.enc_hash is not bc32(sha256(cbor(payload)))", witness=wit)
+    text = obj.encode(use_checksum=use_checksum)
+    want = sx_sjoin("", ["ur:bytes/", obj.enc_hash, "/", obj.encoded] if use_checksum else ["ur:bytes/", obj.encoded])
+    check((len(text) == len(want)) and (text == want), "BCURSingle.encode layout", witness=wit)
+    st, back = _recv(bc.BCURSingle.parse, text)
+    if st != "ok":
+        check(False, f"BCURSingle.parse(encode()) rejected ({back})", witness=wit)
+        return "rejected"
+    check(_bytes_eq(back.text_b64.b, d), "BCURSingle round trip returns a different payload", witness=wit)
+    check((back.encoded == obj.encoded) and (back.enc_hash == obj.enc_hash), "BCURSingle round trip changes the encoding", witness=wit)
+    st, r = _recv(bc.bcur_decode, obj.encoded, obj.enc_hash)
+    check(st == "ok" and _bytes_eq(r, d), "bcur_decode(*bcur_encode(d)) != d", witness=wit)
+    st, r = _recv(bc.bcur_decode, obj.encoded)
+    check(st == "ok" and _bytes_eq(r, d), "bcur_decode(enc) != d", witness=wit)
+    return "ok"
+
+
+def _multi_path(n, animate):
+    be, bc = mods()
+    use_polymod("fold")
+    d = SBytes.sym("d", n) if n else b""
+    s = SI.var("s", 1, 2000)
+    wit = lambda env: {"scenario": "multi", "d": bytes_env(env, "d", n).hex(), "s": env["s"], "animate": animate}  # noqa
+    obj, parts = _send_multi(bc, d, s, animate)
+    L = _text_len(n)
+    check(len(obj.encoded) == L, "encoded text length", witness=wit)
+    if _check_parts(parts, obj.encoded, obj.enc_hash, s, animate, wit, L) is None:
+        return "bad-parts"
+    st, back = _recv(bc.BCURMulti.parse, parts)
+    if st != "ok":
+        check(False, f"BCURMulti.parse(encode()) rejected ({back})", witness=wit)
+        return "rejected"
+    check(_bytes_eq(back.text_b64.b, d), "BCURMulti round trip returns a different payload", witness=wit)
+    check((back.encoded == obj.encoded) and (back.enc_hash == obj.enc_hash), "BCURMulti round trip changes the encoding", witness=wit)
+    return len(parts)
+
+
+def ob_bcur_roundtrip(n):
+    L = _text_len(n)
+    runs = [sym_run(lambda: _single_path(n, True), expect_classes=["ok"]), sym_run(lambda: _single_path(n, False), expect_classes=["ok"]),
+            sym_run(lambda: _multi_path(n, True), expect_classes=[1, 2, L], timeout_ms=60000),
+            sym_run(lambda: _multi_path(n, False), expect_classes=[1], timeout_ms=60000)]
+    m = merge_runs(runs)
+    m["sample"] = {"payload": f"{n} symbolic bytes", "encoded text length": L, "max_size_per_chunk": "symbolic in [1,2000]"}
+    return m
+
+
+def _arrange_path(n, y, seq):
+    be, bc = mods()
+    use_polymod("fold")
+    d = SBytes.sym("d", n) if n else SBytes.sym("d", 0)
+    d = norm(d)
+    L = _text_len(n)
+    s = _chunk_size_for(L, y)
+    wit = lambda env: {"scenario": "arrange", "d": bytes_env(env, "d", n).hex(), "s": s, "seq": list(seq)}  # noqa
+    obj, parts = _send_multi(bc, d, s)
+    if len(parts) != y:
+        check(False, "number of parts", witness=wit)
+        return "bad-parts"
+    got = [parts[i] for i in seq]
+    st, back = _recv(bc.BCURMulti.parse, got)
+    legit = list(seq) == list(range(y))
+    if st != "ok":
+        check(not legit, f"the complete in-order sequence is rejected ({back})", witness=wit)
+        return "rejected"
+    # what the receiver hashed: the bytes behind the joined payload text
+    joined = sx_sjoin("", [seam_helper(p)[0] for p in got])
+    syms = [be.BECH32_ALPHABET.find(c) for c in joined][:-6]
+    body, _ = spec_5to8(syms)
+    inj = _inj(spec_cbor(d), norm(SBytes(body))) if body is not None else True
+    check(s_implies(inj, _bytes_eq(back.text_b64.b, d)),
+          "a re-ordered / incomplete / repeated sequence of parts is accepted and yields a different payload", witness=wit)
+    if not legit:
+        check(s_not(inj), "a re-ordered / incomplete / repeated sequence of parts is accepted", witness=wit)
+    return "ok"
+
+
+def ob_bcur_arrange(n, y):
+    import itertools
+    runs = []
+    seqs = [q for k in range(0, y + 1) for q in itertools.product(range(y), repeat=k)]
+    for seq in seqs:
+        runs.append(sym_run(lambda: _arrange_path(n, y, seq), timeout_ms=60000, min_checks=0))
+    m = merge_runs(runs)
+    m["sample"] = {"payload": f"{n} symbolic bytes", "parts": y, "sequences": len(seqs), "example": "[0, 2, 1]"}
+    if "'ok'" not in m["classes"] or "'rejected'" not in m["classes"]:
+        m["inconclusive"].append("reachability twin: accept / reject classes not both reached")
+    m["inconclusive"] = [x for x in m["inconclusive"] if "no assertion" not in x]
+    return m
+
+
+def _headers_path(n, y):
+    be, bc = mods()
+    use_polymod("fold")
+    d = norm(SBytes.sym("d", n))
+    L = _text_len(n)
+    s = _chunk_size_for(L, y)
+    obj, parts = _send_multi(bc, d, s)
+    legit = [seam_helper(p) for p in parts]
+    xs = [SI.var(f"x{i}", 0, 5) for i in range(y)]
+    ys = [SI.var(f"y{i}", 0, 5) for i in range(y)]
+    cs = [SStr.sym(f"c{i}", 58) for i in range(y)]
+
+    def wit(env):
+        return {"scenario": "headers", "d": bytes_env(env, "d", n).hex(), "s": s,
+                "hdr": [[env[f"x{i}"], env[f"y{i}"], _text_of(env, f"c{i}", 58, cased=False)] for i in range(y)]}
+    got = [Part(legit[i][0], cs[i], xs[i], ys[i]) for i in range(y)]
+    st, back = _recv(bc.BCURMulti.parse, got)
+    inorder = s_and(*[xs[i] == i + 1 for i in range(y)])
+    same_c = s_and(*[cs[i] == cs[0] for i in range(1, y)]) if y > 1 else True
+    same_y = s_and(*[ys[i] == ys[0] for i in range(1, y)]) if y > 1 else True
+    genuine = cs[0] == obj.enc_hash
+    if st == "ok":
+        check(inorder, "parts accepted although the x positions are not 1..k in order", witness=wit)
+        check(same_c, "parts accepted although their checksum fields differ", witness=wit)
+        check(same_y, "parts accepted although their y fields differ", witness=wit)
+        check(genuine, "parts accepted although the checksum text is not the digest of the payload", witness=wit)
+        check(_bytes_eq(back.text_b64.b, d), "accepted parts yield a different payload", witness=wit)
+        return "ok"
+    wellformed = s_and(inorder, same_c, same_y, genuine, ys[0] >= y)
+    check(s_not(wellformed), f"in-order parts with the genuine checksum and one y >= count are rejected ({back})", witness=wit)
+    return "rejected"
+
+
+def ob_bcur_headers(n, y):
+    r = sym_run(lambda: _headers_path(n, y), timeout_ms=60000, expect_classes=["ok", "rejected"])
+    r["sample"] = {"payload": f"{n} symbolic bytes", "parts": y, "x_i, y_i": "symbolic in [0,5]", "checksum_i": "58 symbolic bech32 characters each"}
+    return r
+
+
+def _foreign_path(n, y, j):
+    be, bc = mods()
+    use_polymod("fold")
+    d = norm(SBytes.sym("d", n))
+    e = norm(SBytes.sym("e", n))
+    L = _text_len(n)
+    s = _chunk_size_for(L, y)
+    wit = lambda env: {"scenario": "foreign", "d": bytes_env(env, "d", n).hex(), "d2": bytes_env(env, "e", n).hex(), "s": s, "j": j}  # noqa
+    _, parts = _send_multi(bc, d, s)
+    _, parts2 = _send_multi(bc, e, s)
+    got = list(parts)
+    got[j] = parts2[j]
+    st, back = _recv(bc.BCURMulti.parse, got)
+    if st != "ok":
+        check(True, "rejected")
+        return "rejected"
+    joined = sx_sjoin("", [seam_helper(p)[0] for p in got])
+    syms = [be.BECH32_ALPHABET.find(c) for c in joined][:-6]
+    body, _ = spec_5to8(syms)
+    inj = _inj(spec_cbor(d), spec_cbor(e), norm(SBytes(body)))
+    check(s_implies(inj, _bytes_eq(back.text_b64.b, d)), "a part taken from another payload is accepted and the result is not the original payload",
+          witness=wit)
+    return "ok"
+
+
+def ob_bcur_foreign(n, y):
+    runs = [sym_run(lambda: _foreign_path(n, y, j), timeout_ms=60000) for j in range(y)]
+    m = merge_runs(runs)
+    m["sample"] = {"payloads": f"two symbolic {n}-byte payloads", "parts": y, "swapped": "each position in turn"}
+    if "'ok'" not in m["classes"] or "'rejected'" not in m["classes"]:
+        m["inconclusive"].append("reachability twin: accept (identical payloads) / reject classes not both reached")
+    return m
+
+
+def _tamper_path(n, dl):
+    be, bc = mods()
+    use_polymod("fold")
+    d = norm(SBytes.sym("d", n))
+    L = _text_len(n)
+    enc, enc_hash = bc.bcur_encode(d)
+    P = SStr.sym("p", L + dl)
+    wit = lambda env: {"scenario": "tamper", "d": bytes_env(env, "d", n).hex(), "payload": _text_of(env, "p", L + dl, cased=False)}  # noqa
+    st, r = _recv(bc.bcur_decode, P, enc_hash)
+    if st != "ok":
+        check(True, "rejected")
+        return "rejected"
+    body, _ = spec_5to8([c.sym for c in P.items][:-6])
+    inj = _inj(spec_cbor(d), norm(SBytes(body))) if body is not None else True
+    check(s_implies(inj, _bytes_eq(r, d)), "a payload text that does not match the digest is accepted and yields different data", witness=wit)
+    return "ok"
+
+
+def ob_bcur_tamper(n):
+    runs = [sym_run(lambda: _tamper_path(n, dl), timeout_ms=60000) for dl in (0, -1, 1)]
+    m = merge_runs(runs)
+    m["sample"] = {"payload": f"{n} symbolic bytes", "received text": "every string of bech32 characters of the genuine length and +-1, genuine digest"}
+    if "'ok'" not in m["classes"] or "'rejected'" not in m["classes"]:
+        m["inconclusive"].append("reachability twin: accept (the genuine text) / reject classes not both reached")
+    return m
+
+
+def replay_bcur(w):
+    """run the scenario on the native code with real base64 / SHA-256"""
+    from buidl import bcur
+    from base64 import b64encode
+    from binascii import a2b_base64
+    d = bytes.fromhex(w["d"])
+    sc = w["scenario"]
+    b64 = b64encode(d).decode()
+
+    def data_of(obj):
+        return a2b_base64(obj.text_b64)
+
+    def attempt(fn, *a):
+        try:
+            r = fn(*a)
+        except Exception as ex:
+            return None, repr(ex)[:120]
+        return r, None
+    if sc == "single":
+        obj = bcur.BCURSingle(text_b64=b64)
+        text = obj.encode(use_checksum=w["use_checksum"])
+        want = f"ur:bytes/{obj.enc_hash}/{obj.encoded}" if w["use_checksum"] else f"ur:bytes/{obj.encoded}"
+        cb = spec_cbor(d)
+        import hashlib
+        bad = obj.encoded != spec_bc32encode(cb) or obj.enc_hash != spec_bc32encode(hashlib.sha256(cb).digest()) or text != want
+        back, err = attempt(bcur.BCURSingle.parse, text)
+        r1, e1 = attempt(bcur.bcur_decode, obj.encoded, obj.enc_hash)
+        r2, e2 = attempt(bcur.bcur_decode, obj.encoded)
+        bad = bad or back is None or data_of(back) != d or r1 != d or r2 != d
+        return {"violated": bad, "observed": f"single {len(d)} bytes: text {text[:60]}..., parse -> {err or 'ok'}, bcur_decode -> {e1 or r1 == d}/{e2 or r2 == d}"}
+    if sc == "tamper":
+        enc, enc_hash = bcur.bcur_encode(d)
+        r, err = attempt(bcur.bcur_decode, w["payload"], enc_hash)
+        return {"violated": r is not None and r != d, "observed": f"bcur_decode({w['payload']!r}, genuine digest) -> {err or r.hex()} (payload {d.hex()})"}
+    obj = bcur.BCURMulti(text_b64=b64)
+    parts = obj.encode(max_size_per_chunk=w["s"], animate=w.get("animate", True))
+    y = len(parts)
+    if sc == "multi":
+        cw = replay_chunking({"L": len(obj.encoded), "s": w["s"], "animate": w.get("animate", True)})
+        back, err = attempt(bcur.BCURMulti.parse, parts)
+        bad = cw["violated"] or back is None or data_of(back) != d or back.encoded != obj.encoded or back.enc_hash != obj.enc_hash
+        return {"violated": bad, "observed": f"multi {len(d)} bytes, size {w['s']}: {y} parts; parse -> {err or 'ok'}; chunking: {cw['observed']}"}
+    if sc == "arrange":
+        got = [parts[i] for i in w["seq"]]
+        back, err = attempt(bcur.BCURMulti.parse, got)
+        legit = w["seq"] == list(range(y))
+        if back is None:
+            return {"violated": legit, "observed": f"sequence {w['seq']} of {y} parts rejected: {err}"}
+        return {"violated": not legit, "observed": f"sequence {w['seq']} of {y} parts accepted; payload {'unchanged' if data_of(back) == d else 'DIFFERENT'}"}
+    if sc == "foreign":
+        d2 = bytes.fromhex(w["d2"])
+        parts2 = bcur.BCURMulti(text_b64=b64encode(d2).decode()).encode(max_size_per_chunk=w["s"])
+        got = list(parts)
+        got[w["j"]] = parts2[w["j"]]
+        back, err = attempt(bcur.BCURMulti.parse, got)
+        return {"violated": back is not None and data_of(back) != d,
+                "observed": f"part {w['j'] + 1} taken from payload {d2.hex()}: {err or 'accepted, payload ' + data_of(back).hex()} (original {d.hex()})"}
+    if sc == "headers":
+        fields = [bcur._parse_bcur_helper(p) for p in parts]
+        got = [f"ur:bytes/{x}of{yy}/{c}/{fields[i][0]}" for i, (x, yy, c) in enumerate(w["hdr"])]
+        back, err = attempt(bcur.BCURMulti.parse, got)
+        hd = w["hdr"]
+        inorder = all(h[0] == i + 1 for i, h in enumerate(hd))
+        same = all(h[2] == hd[0][2] and h[1] == hd[0][1] for h in hd)
+        genuine = hd[0][2] == obj.enc_hash
+        if back is not None:
+            bad = not (inorder and same and genuine) or data_of(back) != d
+            return {"violated": bad, "observed": f"headers {[(h[0], h[1], h[2][:8]) for h in hd]} (genuine checksum {obj.enc_hash[:8]}..) accepted"}
+        wellformed = inorder and same and genuine and hd[0][1] >= y
+        return {"violated": wellformed, "observed": f"headers {[(h[0], h[1], h[2][:8]) for h in hd]} rejected: {err}"}
+    return {"violated": None, "error": "unknown scenario"}
+
+
+# =============================================================================================== FP lemma (thorough)
+
+def ob_fp_lemma(abits, bbits, timeout_s):
+    """ceil(float(a)/float(b)) == -(-a // b): the float division + math.ceil of BCURMulti.encode agrees with the integer reading"""
+    import z3
+    t0 = time.time()
+    a = z3.BitVec("a", 32)
+    b = z3.BitVec("b", 32)
+    rm = z3.RNE()
+    q = z3.fpDiv(rm, z3.fpSignedToFP(rm, a, z3.Float64()), z3.fpSignedToFP(rm, b, z3.Float64()))
+    ci = z3.fpToSBV(z3.RTZ(), z3.fpRoundToIntegral(z3.RTP(), q), z3.BitVecSort(32))
+    s = z3.Solver()
+    s.set("timeout", timeout_s * 1000)
+    s.add(z3.ULT(a, 1 << abits), z3.UGE(b, 1), z3.ULT(b, 1 << bbits), ci != z3.UDiv(a + b - 1, b))
+    r = str(s.check())
+    st = core.Stats()
+    st.paths, st.decisions, st.checks = 1, 1, 1
+    st.q[r] += 1
+    st.solver_s = time.time() - t0
+    out = {"engine": "z3/QF_FP", "stats": st.asdict(), "classes": {r: 1}, "violations": [], "inconclusive": [], "wall_s": round(time.time() - t0, 2),
+           "sample": {"a": f"< 2^{abits}", "b": f"1 <= b < 2^{bbits}"}, "symbolic": True, "vars": ["a", "b"]}
+    if r == "sat":
+        m = s.model()
+        out["violations"].append({"label": "ceil(float(a)/float(b)) != -(-a//b)", "witness": {"a": m[a].as_long(), "b": m[b].as_long()}, "env": {}})
+    elif r != "unsat":
+        out["inconclusive"].append(f"FP lemma: solver {r} after {timeout_s}s")
+    return out
+
+
+def replay_fp(w):
+    a, b = w["a"], w["b"]
+    return {"violated": math.ceil(a / b) != -(-a // b), "observed": f"ceil({a}/{b}) = {math.ceil(a / b)} vs {-(-a // b)}"}
+
+
+
+# =============================================================================================== registry
+
+def _groups(xs, k):
+    xs = list(xs)
+    return [tuple(xs[i:i + k]) for i in range(0, len(xs), k)]
+
+
 def obligations(tier):
     q = tier == "quick"
     obs = [Ob("O0-tables", ob_tables)]
-    lens = list(range(0, 26)) + [255, 256] if q else list(range(0, 301))
-    for i in range(0, len(lens), 14 if q else 50):
-        obs.append(Ob("O1-cbor-roundtrip", ob_cbor_rt, {"lengths": tuple(lens[i:i + (14 if q else 50)])}, replay="cbor_rt"))
+    # ---- O1 CBOR
+    for g in _groups(list(range(0, 26)) + [255, 256] if q else range(0, 301), 14 if q else 50):
+        obs.append(Ob("O1-cbor-roundtrip", ob_cbor_rt, {"lengths": g}, replay="cbor_rt"))
     for n in ([65535, 65536] if q else [65535, 65536, 70000]):
         obs.append(Ob("O1-cbor-roundtrip", ob_cbor_rt, {"lengths": (n,)}, replay="cbor_rt"))
     obs.append(Ob("O1-cbor-arbitrary", ob_cbor_any, {"maxn": 6 if q else 7}, replay="cbor_any"))
-    # ---- O2
+    # ---- O2 bc32
     top = 40 if q else 64
-    for i in range(0, top + 1, 8):
-        obs.append(Ob("O2-convertbits", ob_convertbits, {"lengths": tuple(range(i, min(i + 8, top + 1))),
-                                                         "symlens": tuple(range(i // 2, min(i // 2 + 4, (16 if q else 40) + 1)))}, replay="convertbits"))
+    symtop = 16 if q else 40
+    bg = _groups(range(0, top + 1), 7)
+    sg = _groups(range(0, symtop + 1), -(-(symtop + 1) // len(bg)))
+    for i, g in enumerate(bg):
+        obs.append(Ob("O2-convertbits", ob_convertbits, {"lengths": g, "symlens": sg[i] if i < len(sg) else ()}, replay="convertbits"))
     obs.append(Ob("O2-polymod-fold", ob_polymod_fold, {"maxk": 4}, replay="polymod"))
-    for n in range(0, (4 if q else 8) + 1):
+    for n in range(0, (3 if q else 4) + 1):
         obs.append(Ob("O2-bc32-roundtrip-real", ob_bc32_rt, {"lengths": (n,), "kind": "real"}, replay="bc32_rt"))
-    for i in range(0, top + 1, 6):
-        obs.append(Ob("O2-bc32-roundtrip", ob_bc32_rt, {"lengths": tuple(range(i, min(i + 6, top + 1))), "kind": "fold"}, replay="bc32_rt"))
-    for n in range(0, 9):
-        obs.append(Ob("O2-bc32-canonical", ob_bc32_canon, {"lengths": (n,)}, replay="bc32_canon"))
+    for g in _groups(range(0, top + 1), 3):
+        obs.append(Ob("O2-bc32-roundtrip", ob_bc32_rt, {"lengths": g, "kind": "fold"}, replay="bc32_rt"))
+    for g in _groups(range(0, (16 if q else 40) + 1), 6):
+        obs.append(Ob("O2-bc32-canonical", ob_bc32_canon, {"lengths": g}, replay="bc32_canon"))
     cl = list(range(1, (10 if q else 14) + 1))
-    obs.append(Ob("O2-bc32-case", ob_bc32_case, {"lens": tuple(cl[:6]), "badlens": (8,)}, replay="bc32_case"))
-    obs.append(Ob("O2-bc32-case", ob_bc32_case, {"lens": tuple(cl[6:]), "badlens": (12,)}, replay="bc32_case"))
+    obs.append(Ob("O2-bc32-case", ob_bc32_case, {"lens": tuple(cl[:7]), "badlens": (8,)}, replay="bc32_case"))
+    obs.append(Ob("O2-bc32-case", ob_bc32_case, {"lens": tuple(cl[7:]), "badlens": (12,)}, replay="bc32_case"))
+    # ---- O3 BCUR
+    Ls = list(range(8, 201)) if q else list(range(8, 401)) + list(range(401, 2001, 27))
+    for g in (_groups(Ls, 16) if q else _groups(Ls[:393], 24) + _groups(Ls[393:], 3)):
+        obs.append(Ob("O3-chunking", ob_chunking, {"Ls": g}, replay="chunking", budget_s=1700))
+    for n in ([0, 1, 5, 23, 24, 40] if q else [0, 1, 5, 23, 24, 40, 64, 255, 256]):
+        obs.append(Ob("O3-bcur-roundtrip", ob_bcur_roundtrip, {"n": n}, replay="bcur", budget_s=1700))
+    for n, y in ([(0, 2), (5, 3), (24, 2), (40, 3)] if q else [(0, 2), (0, 4), (5, 3), (5, 4), (24, 2), (24, 4), (40, 3), (64, 4), (256, 3)]):
+        obs.append(Ob("O3-bcur-arrange", ob_bcur_arrange, {"n": n, "y": y}, replay="bcur", budget_s=1700))
+    for n, y in ([(0, 1), (5, 2), (24, 3), (40, 2)] if q else [(0, 1), (0, 3), (5, 2), (5, 3), (24, 3), (40, 2), (64, 3), (256, 2)]):
+        obs.append(Ob("O3-bcur-headers", ob_bcur_headers, {"n": n, "y": y}, replay="bcur", budget_s=1700))
+    for n, y in ([(1, 2), (5, 2), (24, 3)] if q else [(1, 2), (5, 2), (24, 3), (40, 4), (64, 3), (256, 2)]):
+        obs.append(Ob("O3-bcur-foreign", ob_bcur_foreign, {"n": n, "y": y}, replay="bcur", budget_s=1700))
+    for n in ([0, 1, 5, 23, 24] if q else [0, 1, 5, 23, 24, 40, 64]):
+        obs.append(Ob("O3-bcur-tamper", ob_bcur_tamper, {"n": n}, replay="bcur", budget_s=1700))
+    if not q:
+        obs.append(Ob("FP-ceil-lemma", ob_fp_lemma, {"abits": 12, "bbits": 8, "timeout_s": 1200}, replay="fp", budget_s=1500))
     return obs
